@@ -3,10 +3,12 @@
    source on every run (Model/Schemas.v); (2) the text round trips every dictionary value goes through (quantities: C18;
    equations: C19); (3) the object level (Model/ObjDict.v): writers and readers of units systems, species, reactions, networks, grid
    and graph spaces, systems, scripts and trajectories, each with a round-trip theorem, each compared with the code's writer and
-   reader dictionary for dictionary on every run (harness/c12.py).  File references, external array files and seeds drawn when
-   none is given are outside the model and decided by the correspondence alone - see the manifest. *)
+   reader dictionary for dictionary on every run (harness/c12.py); (4) files (Model/Files.v): the path helpers of filepath.py over a
+   model of the pathlib calls they make, the two file names of a saved trajectory, text arrays - compared with the code on random
+   paths, texts and real save / load runs (harness/files.py).  The content of .npy files and seeds drawn when none is given are
+   outside the model and decided by the correspondence alone - see the manifest. *)
 From Coq Require Import NArith ZArith List Lia Bool.
-From Verif Require Import Num Units ReactionText ReactionTextFacts UnitText UnitTextFacts Schemas Dict DictFacts DictRoundTrip ObjDict ObjRoundTrip.
+From Verif Require Import Num Units ReactionText ReactionTextFacts UnitText UnitTextFacts Schemas Dict DictFacts DictRoundTrip ObjDict ObjRoundTrip Files FilesFacts.
 
 (* all key aliases a reader accepts are interchangeable: renaming a key into a synonym of the same field changes neither whether
    the dictionary is accepted nor the value read for any field (any schema, any dictionary) *)
@@ -162,3 +164,41 @@ Proof.
   intros r H1 H2. apply parse_print_eq; intros p Hp; apply valid_label_ok; [apply H1|apply H2]; exact Hp.
 Qed.
 Print Assumptions C12_equation_text.
+
+(* ---- files ---- *)
+(* save_rdtrajectory(path, separate_data=True) writes two files; load_rdtrajectory of the JSON file opens, for the data, exactly the
+   file that was written - for every path (any extension or none, directories, '.', '..', runs of slashes, empty) and every
+   absolute working directory.  Paths are compared in pathlib's normal form. *)
+Theorem C12_trajectory_data_found : forall cwd p, starts_slash cwd = true -> data_loaded_from cwd p = data_saved_to cwd p.
+Proof. exact trajectory_data_found. Qed.
+Print Assumptions C12_trajectory_data_found.
+
+(* the reference the JSON file holds is a bare file name (so the pair of files can be moved together) *)
+Theorem C12_data_reference_is_a_name : forall p,
+  existsb (N.eqb c_slash) (data_reference p) = false /\ keep_part (data_reference p) = true.
+Proof. exact data_reference_is_a_name. Qed.
+Print Assumptions C12_data_reference_is_a_name.
+
+(* both names are one stem with two endings: a path given with or without '.json' names the same pair of files *)
+Theorem C12_trajectory_names : forall p, exists q, json_path p = q ++ ext_json /\ data_path p = q ++ suffix_data.
+Proof. exact trajectory_names_stem. Qed.
+Print Assumptions C12_trajectory_names.
+
+Theorem C12_extension_test : forall p e, have_extension p e = true <-> exists q, p = q ++ e.
+Proof. exact have_extension_iff. Qed.
+Print Assumptions C12_extension_test.
+
+(* file references: an absolute one is used as it is, any one is used as it is when there is no base *)
+Theorem C12_reference_resolution : forall p, get_path_with_base p None = p /\ forall b, starts_slash p = true -> get_path_with_base p (Some b) = p.
+Proof. intro p. split; [apply no_base_kept | intros b H; apply absolute_reference_kept, H]. Qed.
+Print Assumptions C12_reference_resolution.
+
+(* text arrays (chemostat and environment files): integers written by save_1D_array_txt load as the same integers *)
+Theorem C12_text_array_roundtrip : forall l, load_array (save_array l) = Some l.
+Proof. exact load_save_array. Qed.
+Print Assumptions C12_text_array_roundtrip.
+
+Example C12_files_nonvacuous :
+  data_loaded_from [47; 119] [100; 47; 47; 114; 46; 106; 115; 111; 110] = [47; 119; 47; 100; 47; 114; 95; 100; 97; 116; 97; 46; 110; 112; 121]
+  /\ load_array [49; 44; 32; 45; 50; 10; 51] = Some [1; -2; 3]%Z.
+Proof. split; vm_compute; reflexivity. Qed.
